@@ -67,23 +67,18 @@ Theorem C13_ucd_facts :
 Proof. exact ucd_facts. Qed.
 Print Assumptions C13_ucd_facts.
 
-(* D3: with str.isdigit() the parser raises ValueError on "{²}" ... *)
-Theorem C13_py_own_errors_refuted : pybrace_parse_gen [123; 178; 125] = Crash CValueError.
-Proof. vm_compute. reflexivity. Qed.
-Print Assumptions C13_py_own_errors_refuted.
-
-(* ... and with any digit test that accepts decimal characters only (the fix: isdecimal) it raises only its own errors *)
-Theorem C13_py_own_errors_guarded : forall U M, ucd_ok U -> digits_are_decimal U ->
-  forall s c, pybrace_parse U M s <> Crash c.
+(* the parser raises only its own errors (D3 fixed: the index test is name.isdecimal()), for every table set that
+   satisfies the side conditions ... *)
+Theorem C13_py_own_errors : forall U M, ucd_ok U -> forall s c, pybrace_parse U M s <> Crash c.
 Proof. exact pybrace_own_errors. Qed.
-Print Assumptions C13_py_own_errors_guarded.
+Print Assumptions C13_py_own_errors.
 
-(* the same for the generated tables with isdigit replaced by isdecimal *)
-Theorem C13_py_own_errors_generated_tables : forall s c, pybrace_parse gen_ucd_fixed gen_pybrace_ssize_max s <> Crash c.
+(* ... in particular for the tables of the running interpreter (the extracted instance) *)
+Theorem C13_py_own_errors_generated_tables : forall s c, pybrace_parse_gen s <> Crash c.
 Proof. exact own_errors_generated_tables. Qed.
 Print Assumptions C13_py_own_errors_generated_tables.
 
-(* D16: accepted, but Python's own parser rejects the string: "{:{a[}]}}" (a nested field whose index holds a brace) *)
+(* D25: accepted, but Python's own parser rejects the string: "{:{a[}]}}" (a nested field whose index holds a brace) *)
 Theorem C13_py_accept_implies_cpython_parses_refuted :
   exists sg, pybrace_parse_gen [123;58;123;97;91;125;93;125;125] = Ok sg /\ cpy_markup_ok [123;58;123;97;91;125;93;125;125] = false.
 Proof. eexists. split; vm_compute; reflexivity. Qed.
@@ -102,13 +97,18 @@ Theorem C13_py_accept_implies_cpython_parses_generated_tables : forall s sg,
 Proof. exact gen_accept_implies_markup. Qed.
 Print Assumptions C13_py_accept_implies_cpython_parses_generated_tables.
 
-(* a string rejected by Python's parser is rejected with the parser's own error (both guards: D16 and D3) *)
-Theorem C13_py_reject_if_cpython_rejects_guarded : forall U M, ucd_chars U -> ucd_ok U -> digits_are_decimal U -> forall s,
+(* a string rejected by Python's parser is rejected with the parser's own error (guard: D25 only) *)
+Theorem C13_py_reject_if_cpython_rejects : forall U M, ucd_chars U -> ucd_ok U -> forall s,
   cpy_markup_ok s = false -> nested_guard U (S (length s)) s = true -> exists e, pybrace_parse U M s = Err e.
 Proof. exact reject_if_markup_rejects. Qed.
-Print Assumptions C13_py_reject_if_cpython_rejects_guarded.
+Print Assumptions C13_py_reject_if_cpython_rejects.
 
-(* D15: accepted with type int, but str.format rejects every int: "{:,x}" and "{:+c}" *)
+Theorem C13_py_reject_if_cpython_rejects_generated_tables : forall s,
+  cpy_markup_ok s = false -> nested_guard gen_ucd (S (length s)) s = true -> exists e, pybrace_parse_gen s = Err e.
+Proof. exact gen_reject_if_markup_rejects. Qed.
+Print Assumptions C13_py_reject_if_cpython_rejects_generated_tables.
+
+(* D24: accepted with type int, but str.format rejects every int: "{:,x}" and "{:+c}" *)
 Theorem C13_py_flat_formats_refuted :
   pybrace_parse_gen [123;58;44;120;125]
     = Ok {| argument_map := [(KNum 0, ({| t_str := false; t_int := true; t_float := false |}, 1%nat))] |} /\
@@ -118,13 +118,11 @@ Theorem C13_py_flat_formats_refuted :
 Proof. split; [vm_compute; reflexivity|]. split; [intros z; reflexivity|]. split; [eexists; vm_compute; reflexivity|intros z; reflexivity]. Qed.
 Print Assumptions C13_py_flat_formats_refuted.
 
-(* D3 again: a string Python rejects ("{²}{": single "{") is not rejected with the parser's own error but crashes *)
-Theorem C13_py_reject_if_cpython_rejects_refuted :
-  cpy_markup_ok [123;178;125;123] = false /\ pybrace_parse_gen [123;178;125;123] = Crash CValueError.
+(* non-vacuity: "{²}" is a keyword field named "²" and "{٣}" is index 3, as for str.format; "{}{0}" is rejected (mixture);
+   "{a} {:d} {!r:>5}" is accepted and formats *)
+Example C13_py_ex0 : pybrace_parse_gen [123; 178; 125] = Ok {| argument_map := [(KName [178], (t_all, 1%nat))] |} /\
+  pybrace_parse_gen [123; 1635; 125] = Ok {| argument_map := [(KNum 3, (t_all, 1%nat))] |}.
 Proof. split; vm_compute; reflexivity. Qed.
-Print Assumptions C13_py_reject_if_cpython_rejects_refuted.
-
-(* non-vacuity: "{} {0!r:>5} {x:.2f}" is rejected (mixture); "{a} {:d} {!r:>5}" is accepted and formats *)
 Example C13_py_ex1 : pybrace_parse_gen [123;125;32;123;48;125] = Err BNumberingMixture.
 Proof. vm_compute. reflexivity. Qed.
 Example C13_py_ex2 :
